@@ -15,7 +15,7 @@ META = dict(
                 'Seven genuine deviations from std are recorded as known findings and excluded by region.'),
     level_note=('Trusted: clang AST, cxx2c rendering (incl. new: anonymous unions, CRTP base-to-derived casts, scalar placement new, scope-exit '
                 'destructor calls, malloc/free/memcpy passed to CBMC\'s models), CBMC 6.11 dfcc. Vector sizes are bounded by the precondition '
-                'n <= 2^20 elements and malloc is assumed to succeed. The by-value element type is size_t/int only (trivial T); '
+                'n <= 2^16 elements and malloc is assumed to succeed. The by-value element type is size_t/int only (trivial T); '
                 'the per-operation vector contracts assume the push_back argument does not alias the vector\'s own storage (the aliasing case '
                 'is a recorded finding). Induction over histories is the usual meta-argument from the per-operation contracts.'),
     trusted_base=[
@@ -27,7 +27,7 @@ META = dict(
     ],
     assumptions=[
         'instantiations: static_vector<size_t,8>, array<size_t,4>, vector<size_t>, maybe<size_t>, either<size_t,int>, tuple/tuplev2<size_t,int,size_t>; -DNDEBUG, STL enabled',
-        'utl::vector: sizes and capacities <= VEC_MAX = 2^20 elements (so that sizeof(T)*n cannot wrap; plays the role of max_size()); malloc succeeds',
+        'utl::vector: sizes and capacities <= VEC_MAX = 2^16 elements (proofs also pass with 2^20 / 2^32; 2^16 keeps counterexample search on broken code fast) (so that sizeof(T)*n cannot wrap; plays the role of max_size()); malloc succeeds',
         'utl::vector per-operation invariant uses buffer_size_ >= 1, i.e. excludes the state created by vector(size_type 0) (known finding: leaked block)',
         'ghost g (observed position) and vg (its pre-state value) are bound in preconditions; ghost cells are functional definitions',
         'spec predicate loop sv_dirty (known-finding region) is unwound 8 times (spec evaluation bound, not a code loop)',
